@@ -7,6 +7,7 @@ import (
 	"fmt"
 	"io"
 	"strings"
+	"time"
 
 	"github.com/M2MGateway/go-smpp/sms"
 )
@@ -54,6 +55,7 @@ const c18Pinned = 8
 
 func corrC18(r *Run) {
 	r.Import("Model.TpduRun")
+	r.Import("Proofs.TpduMarshalEffect")
 	r.Rule = "inputs: corpus (repository samples, pre-fix witnesses, edge cases), then well-formed TPDUs of all six types and both report " +
 		"flavours, each also with one field replaced by arbitrary octets (filler / non-decimal nibbles, length lies, resized, truncated, " +
 		"each time-stamp component 00 / 0F / F0 / FF in turn) and cut at every position, inputs of more than 4096 octets, then random octet strings; " +
@@ -112,6 +114,11 @@ func corrC18(r *Run) {
 		}
 		switch {
 		case o.Class == 0 && o.ValidType && o.EncClass == 0:
+			if o.TermAfter != o.Term && o.TermAfter != "" {
+				// Marshal changed its argument (SubmitFlags.ValidityPeriodFormat of a report): the model of that effect, advisory
+				r.Advisory("after-marshal "+desc, fmt.Sprintf("sms_arg_after_is %s \"%s\" %s", coqHex(in), o.Name, o.TermAfter))
+				r.Hist["marshal changed its argument (hostile / report input)"]++
+			}
 			emit(desc, fmt.Sprintf("sms_dec_is %s \"%s\" %s && sms_enc_is %s %s",
 				coqHex(in), o.Name, o.Term, coqHex(in), coqHex(o.Out)))
 			if nSample < 6 && len(in) > 8 {
@@ -218,21 +225,52 @@ func corrC18(r *Run) {
 	}
 }
 
-// c18FieldDecoders calls the exported field decoders the anchors name (Time, Address, SCAddress, Duration,
-// EnhancedDuration .ReadFrom) directly, on arbitrary octets through plain and chunked readers that are NOT a
-// bufio.Reader: each must return a value or an error (the same code sms.Unmarshal runs, reached without it).
+// c18FieldDecoders (audit C18-D3): the exported field codecs the anchors name, called DIRECTLY - ReadFrom of Time,
+// Address, SCAddress, Duration, EnhancedDuration on arbitrary octets through a plain bytes.Reader and through chunked
+// readers that are NOT a bufio.Reader (Address / SCAddress / EnhancedDuration wrap their argument in a bufio.Reader of
+// their own, Time / Duration read it directly), then WriteTo / MarshalBinary of the value decoded.  Direct tests: no
+// panic on either side (the same code sms.Unmarshal / sms.Marshal run, reached without them), the same decoded value
+// through every reader.  Model: decode-then-encode of each field type as an ADVISORY case (fld_is).  Hand-built values
+// no decoder produces (Address{TON: 1, No: "abc"}, negative / huge durations, the zero time) are outside C18: a panic
+// of an encoder on one of them is a note in the evidence.
 func c18FieldDecoders(r *Run) {
+	r.Import("Model.TpduFieldRun")
 	type dec struct {
 		name string
-		run  func(rd io.Reader) error
+		kind int
+		run  func(rd io.Reader) (val string, enc func() []byte, err error)
+	}
+	wt := func(w io.WriterTo) func() []byte {
+		return func() []byte { var b bytes.Buffer; _, _ = w.WriteTo(&b); return b.Bytes() }
 	}
 	decs := []dec{
-		{"Time", func(rd io.Reader) error { var x sms.Time; _, err := x.ReadFrom(rd); return err }},
-		{"Address", func(rd io.Reader) error { var x sms.Address; _, err := x.ReadFrom(rd); return err }},
-		{"SCAddress", func(rd io.Reader) error { var x sms.SCAddress; _, err := x.ReadFrom(rd); return err }},
-		{"Duration", func(rd io.Reader) error { var x sms.Duration; _, err := x.ReadFrom(rd); return err }},
-		{"EnhancedDuration", func(rd io.Reader) error { var x sms.EnhancedDuration; _, err := x.ReadFrom(rd); return err }},
+		{"Address", 0, func(rd io.Reader) (string, func() []byte, error) {
+			var x sms.Address
+			_, err := x.ReadFrom(rd)
+			return fmt.Sprintf("%+v", x), func() []byte { _, _ = x.MarshalBinary(); return wt(&x)() }, err
+		}},
+		{"SCAddress", 1, func(rd io.Reader) (string, func() []byte, error) {
+			var x sms.SCAddress
+			_, err := x.ReadFrom(rd)
+			return fmt.Sprintf("%+v", x), wt(x), err
+		}},
+		{"Time", 2, func(rd io.Reader) (string, func() []byte, error) {
+			var x sms.Time
+			_, err := x.ReadFrom(rd)
+			return smsTimeFields(x.Time), wt(&x), err
+		}},
+		{"Duration", 3, func(rd io.Reader) (string, func() []byte, error) {
+			var x sms.Duration
+			_, err := x.ReadFrom(rd)
+			return fmt.Sprint(x.Duration), wt(&x), err
+		}},
+		{"EnhancedDuration", 4, func(rd io.Reader) (string, func() []byte, error) {
+			var x sms.EnhancedDuration
+			_, err := x.ReadFrom(rd)
+			return fmt.Sprintf("%v %d", x.Duration, x.Indicator), wt(&x), err
+		}},
 	}
+	plain := smsReaderKind{"bytes.Reader", func(_ *Rng, in []byte) io.Reader { return bytes.NewReader(in) }}
 	n := r.N(150, 1500)
 	for _, d := range decs {
 		for i := 0; i < n; i++ {
@@ -243,14 +281,76 @@ func c18FieldDecoders(r *Run) {
 			if len(in) > 1 && d.name == "EnhancedDuration" {
 				in[0] = in[0]&0xF8 | byte(r.Rng.Intn(4))
 			}
-			r.Count("fielddec/"+d.name+"/"+hex.EncodeToString(in), len(in) > 0, "field decoder called directly: "+d.name)
-			for _, k := range append([]smsReaderKind{{"bytes.Reader", func(_ *Rng, in []byte) io.Reader { return bytes.NewReader(in) }}}, smsReaderKinds...) {
-				if p, msg := guard(func() { _ = d.run(k.New(r.Rng, in)) }); p {
-					r.Fail("field-decoder-panic/"+d.name, "sms."+d.name+".ReadFrom panicked on arbitrary octets", "fielddec "+d.name+" "+hex.EncodeToString(in)+" via "+k.Name,
-						"panic: "+msg, "a value or an error")
+			if len(in) > 1 && (d.name == "Address" || d.name == "SCAddress") && r.Rng.Bool() {
+				in[0] = byte(r.Rng.Intn(2 * len(in)))
+			}
+			input := "fielddec " + d.name + " " + hex.EncodeToString(in)
+			r.Count("fielddec/"+d.name+"/"+hex.EncodeToString(in), len(in) > 0, "field codec called directly: "+d.name)
+			var first string
+			for ki, k := range append([]smsReaderKind{plain}, smsReaderKinds...) {
+				var val string
+				var enc func() []byte
+				var err error
+				var out []byte
+				if p, msg := guard(func() { val, enc, err = d.run(k.New(r.Rng, in)) }); p {
+					r.Fail("field-decoder-panic/"+d.name, "sms."+d.name+".ReadFrom panicked on arbitrary octets", input+" via "+k.Name, "panic: "+msg, "a value or an error")
+					break
+				}
+				cls := 1
+				if err == nil {
+					cls = 0
+					if p, msg := guard(func() { out = enc() }); p {
+						r.Fail("field-encoder-panic/"+d.name, "WriteTo / MarshalBinary of the value sms."+d.name+".ReadFrom returned panicked", input+" via "+k.Name,
+							"decoded "+val+"; panic: "+msg, "returns normally")
+						break
+					}
+				}
+				obs := fmt.Sprintf("%d %s %x", cls, val, out)
+				if cls == 1 {
+					obs = "error"
+				}
+				if ki == 0 {
+					first = obs
+					r.Advisory(input, fmt.Sprintf("fld_is %d %s %d %s", d.kind, coqHex(in), cls, coqHex(out)))
+				} else if obs != first {
+					r.Fail("field-decoder-reader/"+d.name+"/"+k.Name, "sms."+d.name+".ReadFrom gives another result when the same octets arrive in smaller pieces", input+" via "+k.Name, obs, first)
 				}
 			}
 		}
+	}
+	// hand-built values: outside C18, reported as a note
+	bad := 0
+	badWhat := map[string]int{}
+	for i := 0; i < r.N(200, 2000); i++ {
+		for wi, w := range []func(){
+			func() {
+				x := sms.Address{TON: r.Rng.Byte(), NPI: r.Rng.Byte(), No: string(r.Rng.Bytes(r.Rng.Intn(24)))}
+				_, _ = x.MarshalBinary()
+				_, _ = x.WriteTo(io.Discard)
+			},
+			func() {
+				x := sms.SCAddress{TON: r.Rng.Byte(), NPI: r.Rng.Byte(), No: string(r.Rng.Bytes(r.Rng.Intn(24)))}
+				_, _ = x.WriteTo(io.Discard)
+			},
+			func() { x := sms.Duration{Duration: time.Duration(int64(r.Rng.U64()))}; _, _ = x.WriteTo(io.Discard) },
+			func() {
+				x := sms.EnhancedDuration{Duration: time.Duration(int64(r.Rng.U64())), Indicator: r.Rng.Byte()}
+				_, _ = x.WriteTo(io.Discard)
+			},
+			func() {
+				x := sms.Time{Time: time.Unix(int64(r.Rng.U64()>>20)-1<<42, 0).In(time.FixedZone("", r.Rng.Intn(200000)-100000))}
+				_, _ = x.WriteTo(io.Discard)
+			},
+		} {
+			if p, msg := guard(w); p {
+				bad++
+				badWhat[fmt.Sprintf("%s: %s", [...]string{"Address", "SCAddress", "Duration", "EnhancedDuration", "Time"}[wi], msg)]++
+			}
+		}
+	}
+	r.Hist["field encoders on hand-built values (outside C18)"] += r.N(200, 2000) * 5
+	if bad > 0 {
+		r.Notes = append(r.Notes, fmt.Sprintf("ADVISORY: %d panics of field encoders (WriteTo / MarshalBinary) on hand-built values no decoder produces - outside C18: %v", bad, badWhat))
 	}
 }
 
